@@ -114,7 +114,8 @@ def uniqueSorted (l : List Nat) : List Nat :=
     | y :: ys => if x < y then x :: y :: ys else if x = y then y :: ys else y :: ins x ys
   l.foldr ins []
 
-/-- `_recursive_louvain(adjacency, depth, nodes)`.  `hasEdge nodes` = the sub-matrix has a stored entry;
+/-- `_recursive_louvain(adjacency, depth, nodes)`.  `hasEdge nodes` = the sub-matrix has an entry different from
+    zero (`adjacency.count_nonzero()`; before /repo 3b5b52a3 the test was `adjacency.nnz`, the stored entries: F28);
     `oracle nodes` = labels returned by `Louvain.fit_predict` on it (used only when it has an edge and `depth ≠ 0`). -/
 def recursiveLouvain (hasEdge : List Nat → Bool) (oracle : List Nat → List Nat) :
     Nat → Int → List Nat → Tree
